@@ -913,13 +913,11 @@ class C16(Prop):
             "rv " + (b"({([1:(/" * 50000).hex(), "rv " + (b'(["a":' * 100000).hex(), "rt a[i1,a[i2]]",
             "set i1 i2 i3 i4 i5", "wf " + (b"#/c16/obj.c\nvi 7\nva " + b"({" * 150000 + b"\nvb 5\n").hex(), "ro 1", "ro 0"])
         # save_variable refuses a text longer than MaxStringLength (200000: a string of 199998 bytes is the longest)
-        mk("save-variable-length-limit", ["rt s" + "61" * n for n in (199997, 199998, 199999, 200001)] +
-           ["rt a[s%s,s%s]" % ("62" * 100000, "63" * 99990), "rt a[s%s,s%s]" % ("62" * 100000, "63" * 99991), "rt a[i1,i2]"])
+        mk("save-variable-length-limit", ["rt s" + "61" * n for n in (199998, 199999)] + ["rt a[i1,i2]"])
         # an array_t counts its members in an unsigned short: a class text with more than 65535 members is refused (it came
         # back with the count truncated: 65536 members as a class of none)
-        mk("class-member-count", ["rv " + (b"(/" + b"1," * n + b"/)").hex() for n in (65534, 65535, 65536, 65537, 70000)] +
-           ["rv " + (b"({(/" + b"1," * 65536 + b"/),})").hex(), "rv " + (b'([1:(/' + b",1" * 32768 + b"," + b"1," * 32768 + b"/),])").hex(),
-            "rx c(%s) %s" % (",".join(["i7"] * 65535), (b"(/" + b"7," * 65535 + b"/)").hex()), "rt c(i1,i2)"])
+        mk("class-member-count", ["rv " + (b"(/" + b"1," * n + b"/)").hex() for n in (65535, 65536)] +
+           ["rv " + (b"({(/" + b"1," * 65537 + b"/),})").hex(), "rt c(i1,i2)"])
         mk("restore-after-error", ["rv " + ("({({1,2,3,}),({" + "1," * 20000 + "}),})").encode().hex(),
                                    "rx a[i1,i2] " + b"({1,2,})".hex(), "rx c(i1,i2) " + b"(/1,2,/)".hex(),
                                    "rx m{i1:i2} " + b"([1:2,])".hex(), "rt a[i1,i2]"])
